@@ -277,7 +277,28 @@ func runC14(c *Checker) {
 			"middle chunk: data[off:off+max], offset advances by max, under remainder > max, not marked final",
 			fmt.Sprintf("middle chunk malformed (high=off+max:%v, advance=max:%v, under remainder>max:%v, not final:%v)", hiOK, okAdv, remainingFitsKnown && !remainingFits, !finalHere))
 	})
-	c.floor("CHUNK-2", 3)
+	// the chunk size Send splits at is the configured one: the option stores its argument unchanged
+	// (an adjusted value - "minus the header" - turns small sizes negative and Send, which only treats
+	// 0 as "off", panics on the first slice)
+	for _, st := range w.Stores(fMax) {
+		v := st.Val
+		if u, ok := v.(*ssa.UnOp); ok && u.Op == token.MUL {
+			v = u.X
+		}
+		fv, isFree := v.(*ssa.FreeVar)
+		_, isParam := v.(*ssa.Parameter)
+		if isFree && fv.Referrers() != nil {
+			// the captured argument is not reassigned
+			for _, r := range *fv.Referrers() {
+				if s2, ok := r.(*ssa.Store); ok && s2.Addr == ssa.Value(fv) {
+					isFree = false
+				}
+			}
+		}
+		c.decide(isFree || isParam, "CHUNK-2", "maxChunkSize|stored as configured in "+fnName(st.Parent()), instrPos(st), "maxChunkSize = the option's argument",
+			"maxChunkSize is set to "+w.canonFB(st.Val)+" instead of the configured size: the chunking no longer honours the configured maximum (and a non-positive result other than 0 makes Send panic)")
+	}
+	c.floor("CHUNK-2", 4)
 	// offset starts at 0
 	allInstrs(send, func(in ssa.Instruction) {
 		phi, ok := in.(*ssa.Phi)
